@@ -1,4 +1,5 @@
 import MqttVerif.Conn.Lemmas.NoPanicRecv
+import MqttVerif.Conn.Lemmas.NoPanicRange2
 /-!
 # C05 helpers — the remaining public calls, the contract `Legal`, and `step` keeps `Good`
 -/
@@ -220,28 +221,65 @@ theorem restorePackets_good {c : C} (h : Good c.s) (ps : List Pkt) (hr : Restore
 
 /-! ## the contract of one API call, and the inductive step -/
 
+/-- **the range invariant**: the packet-id allocator manages a sub-range of `[1, u32::MAX]`
+    and every stored packet's identifier lies in the allocator's range.  With "stored
+    identifiers are pairwise distinct" (`StoreInv`) it bounds the number of stored packets
+    (`StoreRange.headroom`): the `u32` counter `publish_send_count` cannot overflow in
+    `send_stored`. -/
+def StoreRange (s : St) : Prop :=
+  1 ≤ s.pidMan.lowest ∧ s.pidMan.highest ≤ 4294967295 ∧
+  ∀ x ∈ s.store, s.pidMan.lowest ≤ x.1 ∧ x.1 ≤ s.pidMan.highest
+
+theorem StoreRange.sr {s : St} (h : StoreRange s) (cfg : Cfg) :
+    Rng.SR s.pidMan.lowest s.pidMan.highest (Rng.K { cfg := cfg, s := s }) := ⟨rfl, rfl, h.2.2⟩
+
+/-- **pigeonhole**: at most `highest ≤ u32::MAX` packets are stored — `Headroom` is no longer a
+    side condition but a consequence of the invariant -/
+theorem StoreRange.headroom {s : St} (h : Good s) (hr : StoreRange s) : Headroom s := by
+  have hn := h.store.2.2.2.2
+  have := Pigeon.keys_length_le (m := s.pidMan.highest) hn (fun x hx => by
+    have := hr.2.2 x hx
+    have := hr.1
+    omega)
+  unfold Headroom
+  have := hr.2.1
+  omega
+
+/-- the store never holds more packets than there are packet identifiers -/
+theorem StoreRange.length_le {s : St} (h : Good s) (hr : StoreRange s) (hl : s.pidMan.lowest = 1) :
+    s.store.length ≤ s.pidMan.highest :=
+  Pigeon.keys_length_le h.store.2.2.2.2 (fun x hx => by have := hr.2.2 x hx; omega)
+
+theorem step_range {cfg : Cfg} {s : St} (h : Good s) (hr : StoreRange s) (op : Op) :
+    StoreRange (step cfg s op).s := by
+  obtain ⟨e1, e2, e3⟩ := Rng.sr_step h.pid (hr.sr cfg) op
+  simp only [Rng.K] at e1 e2 e3
+  refine ⟨by rw [e1]; exact hr.1, by rw [e2]; exact hr.2.1, ?_⟩
+  rw [e1, e2]; exact e3
+
 /-- **contract-respecting local calls, arbitrary peer input.**
     * `send p`: `SendOk` (a v3.1.1/v5.0 packet; PUBLISH topic without wildcard; a QoS>0 PUBLISH
-      carries an identifier; the identifier of a QoS>0 PUBLISH / PUBREL awaits no response;
-      for CONNACK the store has at most 65535 entries);
+      carries an identifier; the identifier of a QoS>0 PUBLISH / PUBREL awaits no response);
     * `recv inp parse`: **every** `inp`, every parser whose successful results are well formed;
-      the store has at most 65535 entries (`Headroom`, see `C05_no_panic_full`);
     * `timer k`: the timer is armed;
     * `restorePackets ps`: `RestoreOk`;
     * every other call (closed, options, acquire / register / release / erase of ANY id,
-      restoreHandled): unrestricted. -/
+      restoreHandled): unrestricted.
+    (Until fix ab9a1ec — `publish_send_count` a `u16` — `recv` and a CONNACK `send` carried the
+    side condition `Headroom`: at most 65535 stored packets.) -/
 def Legal (cfg : Cfg) (s : St) : Op → Prop
   | .send p => SendOk s p
-  | .recv _ parse => ParserOk parse ∧ Headroom s
+  | .recv _ parse => ParserOk parse
   | .timer k => timerFlag s k = true
   | .restorePackets ps => RestoreOk { cfg := cfg, s := s } ps
   | _ => True
 
-theorem step_good {cfg : Cfg} {s : St} {op : Op} (h : Good s) (hl : Legal cfg s op) :
+theorem step_good {cfg : Cfg} {s : St} {op : Op} (h : Good s) (hr : StoreRange s) (hl : Legal cfg s op) :
     Good (step cfg s op).s := by
+  have hb := hr.headroom h
   cases op with
-  | send p => exact send_good (c := { cfg := cfg, s := s }) h hl
-  | recv inp parse => exact recv_good (c := { cfg := cfg, s := s }) h hl.2 hl.1
+  | send p => exact send_good (c := { cfg := cfg, s := s }) h hb hl
+  | recv inp parse => exact recv_good (c := { cfg := cfg, s := s }) h hb hl
   | timer k => exact notifyTimerFired_good (c := { cfg := cfg, s := s }) h hl
   | closed => exact notifyClosed_good (c := { cfg := cfg, s := s }) h
   | setInterval d => exact setPingreqSendInterval_good (c := { cfg := cfg, s := s }) h d
@@ -269,15 +307,20 @@ theorem init_good {cfg : Cfg} {ver : Nat} (hpw : 1 ≤ cfg.pw) (hv : ver = 0 ∨
   · exact Or.inl e
   · exact Or.inr (Or.inl e)
 
+/-- the identifier range of a `u16` / `u32` (any ≤ 4-byte) identifier type fits the counter -/
+theorem init_range {cfg : Cfg} {ver : Nat} (hpw : 1 ≤ cfg.pw) (h4 : cfg.pw ≤ 4) :
+    StoreRange (St.init cfg ver) :=
+  ⟨Nat.le_refl 1, Pigeon.idMax_le_u32 h4, by simp [St.init]⟩
+
 /-- a sequence of calls each of which is `Legal` in the state it is made in -/
 def LegalSeq (cfg : Cfg) : St → List Op → Prop
   | _, [] => True
   | s, op :: ops => Legal cfg s op ∧ LegalSeq cfg (step cfg s op).s ops
 
-theorem run_good {cfg : Cfg} {s : St} (h : Good s) (ops : List Op) (hl : LegalSeq cfg s ops) :
-    Good (run cfg s ops) := by
+theorem run_good {cfg : Cfg} {s : St} (h : Good s) (hr : StoreRange s) (ops : List Op)
+    (hl : LegalSeq cfg s ops) : Good (run cfg s ops) ∧ StoreRange (run cfg s ops) := by
   induction ops generalizing s with
-  | nil => exact h
-  | cons op ops ih => exact ih (step_good h hl.1) hl.2
+  | nil => exact ⟨h, hr⟩
+  | cons op ops ih => exact ih (step_good h hr hl.1) (step_range h hr op) hl.2
 
 end MqttVerif.Conn
